@@ -414,9 +414,11 @@ def check_phase(emit, spec, rows, phase, tol, ta):
     emit("rows.exact_set", not missing and not extra, lambda: {"missing": missing, "extra": extra, "phase": phase})
     if missing or extra:
         return {"polarity_lost": False, "skipped": True}
-    for n, r in rows.items():
+    for c in spec["comps"]:  # spec order = topological: the first non-finite row is the origin
+        n, r = c["name"], rows[c["name"]]
         if not finite_row(r):
-            emit("finite", False, lambda n=n, r=r: {"row": n, "phase": phase, "values": _rowvals(r)})
+            emit("finite", False, lambda n=n, r=r, c=c: {"row": n, "phase": phase, "values": _rowvals(r),
+                                                          "kind": c["kind"], "args": c["args"], "origin": True})
             return {"polarity_lost": False, "skipped": True}
     emit("finite", True, None)
     sup, sel = suppliers(spec, rows)
@@ -503,7 +505,7 @@ def check_phase(emit, spec, rows, phase, tol, ta):
             polarity_lost = polarity_lost or not okp
             emit("phys.polarity", okp, lambda: det(reference_lost_polarity=lost))
             oka = abs(vout) <= abs(vref) + 2 * tol.dV(vref)
-            emit("phys.no_gain", oka, lambda: det(reference=vref))
+            emit("phys.no_gain", oka, lambda: det(reference=vref, reference_lost_polarity=lost))
         if k == "Source":
             vo = c["args"]["vo"]
             d = 2 * tol.dV(vo) + 2 * abs(c["args"].get("rs", 0.0)) * tol.dI(iin)
@@ -595,3 +597,167 @@ def check_table(emit, spec, df, tol, ta=25.0, only_phase=None):
         if ph in want:
             info[ph] = check_phase(emit, spec, per[ph]["rows"], ph, tol, ta)
     return info, per, avg
+
+
+# ---------------------------------------------------------------------------------------------
+# reference steady-state solver (damped fixed point on the reference laws) - used by C03 to decide
+# whether a steady state with modest series drops exists
+# ---------------------------------------------------------------------------------------------
+class NoSteadyState(Exception):
+    pass
+
+
+def spec_is_exact(spec):
+    """True when every tabulated parameter has an exact reference value (no general 2-D table)."""
+    for c in spec["comps"]:
+        for z in ("eff", "vdrop", "ig", "iq"):
+            p = c["args"].get(z)
+            if is_table(p) and param_form(p) == "tab2d":
+                return False
+    return True
+
+
+def refsolve(spec, phase="", damping=0.5, maxiter=20000, tol=1e-13):
+    """-> {name: {'vin','vout','iin','iout'}} or raises NoSteadyState."""
+    comps = spec["comps"]
+    cm = comp_map(spec)
+    beh = {c["name"]: behaviour(c, phase) for c in comps}
+    vout = {}
+    iin = {c["name"]: 0.0 for c in comps}
+    for c in comps:
+        vout[c["name"]] = float(c["args"]["vo"]) if (c["kind"] == "Source" and beh[c["name"]]["active"]) else 0.0
+    order = [c["name"] for c in comps]  # creation order is a valid topological order
+    last = None
+    for it in range(maxiter):
+        # supplier selection with current voltages
+        sup, sel = {}, {}
+        for c in comps:
+            n = c["name"]
+            if not c["parents"]:
+                sup[n] = None
+            elif c["kind"] == "PMux":
+                k = -1
+                for j, p in enumerate(c["parents"]):
+                    if vout[p] != 0.0:
+                        k = j
+                        break
+                sel[n] = k
+                sup[n] = c["parents"][k] if k >= 0 else None
+            else:
+                sup[n] = c["parents"][0]
+        kids = {n: [] for n in order}
+        for n in order:
+            if sup[n] is not None:
+                kids[sup[n]].append(n)
+        new_v, new_i = {}, {}
+        # forward (Gauss-Seidel: use freshly computed parent voltages)
+        for n in order:
+            c = cm[n]
+            io = sum(iin[k] for k in kids[n])
+            if c["kind"] == "Source":
+                if c["args"]["vo"] == 0.0 or not beh[n]["active"]:
+                    new_v[n] = 0.0
+                    continue
+                try:
+                    new_v[n] = law_vout(c, c["args"]["vo"], io)[0]
+                except LostPolarity:
+                    raise NoSteadyState("source %s collapses" % n)
+                continue
+            vin = new_v[sup[n]] if sup[n] is not None else 0.0
+            if vin == 0.0 or not beh[n]["active"] or c["kind"] in LOADS:
+                new_v[n] = 0.0
+                continue
+            try:
+                lo, hi = law_vout(c, vin, io, sel.get(n, 0))
+            except LostPolarity:
+                raise NoSteadyState("%s loses polarity" % n)
+            new_v[n] = 0.5 * (lo + hi)
+        # backward
+        for n in reversed(order):
+            c = cm[n]
+            io = sum(new_i.get(k, iin[k]) for k in kids[n])
+            if c["kind"] == "Source":
+                new_i[n] = io if new_v[n] != 0.0 else 0.0
+                continue
+            vin = new_v[sup[n]] if sup[n] is not None else 0.0
+            if vin == 0.0:
+                new_i[n] = 0.0
+            elif not beh[n]["active"]:
+                new_i[n] = sleep_current(c)
+            else:
+                lo, hi = law_iin(c, beh[n], vin, io)
+                new_i[n] = 0.5 * (lo + hi)
+        delta = 0.0
+        for n in order:
+            dv = abs(new_v[n] - vout[n]) / (abs(new_v[n]) + 1e-30) if new_v[n] != vout[n] else 0.0
+            di = abs(new_i[n] - iin[n]) / (abs(new_i[n]) + 1e-30) if new_i[n] != iin[n] else 0.0
+            delta = max(delta, dv, di)
+            vout[n] = vout[n] + damping * (new_v[n] - vout[n]) if vout[n] != 0.0 and new_v[n] != 0.0 else new_v[n]
+            iin[n] = iin[n] + damping * (new_i[n] - iin[n])
+            if not math.isfinite(vout[n]) or not math.isfinite(iin[n]):
+                raise NoSteadyState("diverged")
+        if delta < tol:
+            last = (sup, kids)
+            break
+    else:
+        raise NoSteadyState("reference iteration did not converge")
+    sup, kids = last
+    res = {}
+    for n in order:
+        c = cm[n]
+        io = sum(iin[k] for k in kids[n])
+        if c["kind"] == "Source":
+            vin = float(c["args"]["vo"]) if vout[n] != 0.0 else 0.0
+        else:
+            vin = vout[sup[n]] if sup[n] is not None else 0.0
+        res[n] = {"vin": vin, "vout": vout[n], "iin": iin[n], "iout": io if c["kind"] != "Source" else iin[n]}
+    return res
+
+
+def max_drop_fraction(spec, ref):
+    """Largest fraction of its input that a series element (or source resistance) drops in state `ref`."""
+    worst = 0.0
+    for c in spec["comps"]:
+        r = ref[c["name"]]
+        if c["kind"] in ("Source", "RLoss", "VLoss", "PSwitch", "PMux", "Rectifier") and r["vin"] != 0.0 and r["vout"] != 0.0:
+            worst = max(worst, (abs(r["vin"]) - abs(r["vout"])) / abs(r["vin"]))
+    return worst
+
+
+def modest(spec, ref, frac=0.8):
+    """DESIGN C03(f): every live node keeps >= frac of the voltage of its nearest regulated ancestor
+    (source nominal, converter output, LinReg in regulation)."""
+    cm = comp_map(spec)
+    origin = {}
+    worst = 1.0
+    for c in spec["comps"]:
+        n, k = c["name"], c["kind"]
+        r = ref[n]
+        if k == "Source":
+            origin[n] = abs(float(c["args"]["vo"]))
+            if r["vout"] != 0.0:
+                worst = min(worst, abs(r["vout"]) / origin[n])
+            continue
+        # supplier = the parent whose output equals this row's vin (mux: selected)
+        sup = None
+        for p in c["parents"]:
+            if ref[p]["vout"] == r["vin"] and r["vin"] != 0.0:
+                sup = p
+                break
+        if sup is None or r["vin"] == 0.0:
+            origin[n] = 0.0
+            continue
+        o = origin[sup]
+        if k in LOADS:
+            continue
+        if r["vout"] == 0.0:
+            origin[n] = 0.0
+            continue
+        if k == "Converter" or (k == "LinReg" and abs(abs(r["vout"]) - abs(c["args"]["vo"])) <= 1e-12 * abs(r["vout"])):
+            origin[n] = abs(r["vout"])
+            # the regulator's own supply must also be modestly dropped (checked at the supplier)
+            continue
+        origin[n] = o
+        if o > 0:
+            worst = min(worst, abs(r["vout"]) / o)
+    return worst >= frac, worst
